@@ -914,7 +914,11 @@ func ruleZ3(c *Ctx) {
 						t = tup.At(0).Type()
 					}
 					if t != nil {
-						decTags[tag] = types.TypeString(t, func(p *types.Package) string { return p.Name() })
+						// `var c any; c, _ = new(big.Int).SetString(...); return c`: the assignment above has
+						// already told the concrete type; a variable of interface type adds nothing
+						if _, have := decTags[tag]; !(have && types.IsInterface(t)) {
+							decTags[tag] = types.TypeString(t, func(p *types.Package) string { return p.Name() })
+						}
 					}
 				}
 				if as, ok := st.(*ast.AssignStmt); ok && len(as.Rhs) == 1 {
